@@ -448,6 +448,22 @@ fn run_setop_mut<'x, 'y: 'x, P: SimPrefix, T: WVal, Rr: WVal>(
         _ => model_covering_difference(ea, eb),
     };
     let desc = format!("a = {:?}, b = {:?}", ea, eb);
+    // the read-only twin on the very same views: the mutable form must yield the same prefixes
+    // (in whatever stored representation the implementation reports for items stored in both)
+    let twin: Vec<Raw> = {
+        let bv = match (&b_owned, b_ref) {
+            (Some(b), _) => b.view(),
+            (None, Some(b)) => b.view(),
+            (None, None) => unreachable!(),
+        };
+        let av = (&*a).view();
+        ctx.obs("C13", "read-only twin", || match op % 4 {
+            0 => av.union(bv).take(4 * (ea.len() + eb.len()) + 16).map(|x| x.prefix().raw()).collect(),
+            1 => av.intersection(bv).take(4 * (ea.len() + eb.len()) + 16).map(|x| x.0.raw()).collect(),
+            2 => av.difference(bv).take(4 * (ea.len() + eb.len()) + 16).map(|x| x.prefix.raw()).collect(),
+            _ => av.covering_difference(bv).take(4 * (ea.len() + eb.len()) + 16).map(|x| x.0.raw()).collect(),
+        })?
+    };
     let mut w = SetOpWrites { left: vec![], right: vec![] };
     let cap = 2 * (ea.len() + eb.len()) + 16;
     // collect all items (holding every reference), compare, write in permuted order with a
@@ -458,7 +474,8 @@ fn run_setop_mut<'x, 'y: 'x, P: SimPrefix, T: WVal, Rr: WVal>(
             let got: Vec<SItem> = items.iter().map(|x| x.0.clone()).collect();
             let core = |v: &[SItem]| v.iter().map(|x| (x.raw.key(), x.tag, x.l, x.r)).collect::<Vec<_>>();
             chk!(ctx, prop, core(&got) == core(&exp), format!("session:{name}:items"), "{name} yields {:?}, expected {:?}; {desc}", got, exp);
-            chk!(ctx, "C13", got.iter().map(|x| (x.raw, x.l, x.r)).collect::<Vec<_>>() == exp.iter().map(|x| (x.raw, x.l, x.r)).collect::<Vec<_>>(), format!("mirror:{name}"), "{name} yields {:?}, read-only twin {:?}; {desc}", got, exp);
+            chk!(ctx, "C13", got.iter().map(|x| (x.raw.key(), x.l, x.r)).collect::<Vec<_>>() == exp.iter().map(|x| (x.raw.key(), x.l, x.r)).collect::<Vec<_>>(), format!("mirror:{name}"), "{name} yields {:?}, read-only twin {:?}; {desc}", got, exp);
+            chk!(ctx, "C13", got.iter().map(|x| x.raw).collect::<Vec<_>>() == twin, format!("mirror:{name}:prefixes"), "{name} yields prefixes {:?}, the read-only twin on the same views yields {:?}; {desc}", got.iter().map(|x| x.raw).collect::<Vec<_>>(), twin);
             if core(&got) == core(&exp) {
                 let ann = |v: &[SItem]| v.iter().map(|x| x.ann.map(|a| (a.0.key(), a.1))).collect::<Vec<_>>();
                 chk!(ctx, "C08", ann(&got) == ann(&exp), format!("session:{name}:lpm"), "{name} annotations {:?}, expected {:?}; {desc}", ann(&got), ann(&exp));
